@@ -151,6 +151,19 @@ CHECKS = {
              "at most 3 files and 2 writes per file of each traced process. Locale variation is limited to the locales "
              "installed (C, C.UTF-8, POSIX).",
         design="6/C14"),
+    "C19": dict(
+        category="other",
+        technique="TLA+ ParseCost step-counting model (memoised vs plain Or-backtracking) fixing the envelopes; measured "
+                  "rule-evaluation counts of the real parser on TLC-rendered scaled families judged by TLC "
+                  "(ParseCostTrace)",
+        text="Not time but the number of rule evaluations (calls of pyparsing's uncached parse routine) is measured on "
+             "four families (namespace depth, template-argument depth, both, file size; intact and truncated members) "
+             "and must stay inside the polynomial envelope of the cost model: W(2d) <= 8 W(d), no doubling per level, "
+             "per-(rule, position, mode) re-evaluations <= 8 + 4d. An evaluation budget stops exponential runs.",
+        note="A performance property is outside what TLA+ decides well: what is decided is the growth of the step "
+             "count, i.e. the memoisation mechanism the property names. A slowdown with unchanged evaluation counts "
+             "is not detected. CPU seconds are recorded, never judged.",
+        design="6/C19"),
 }
 
 NOT_YET = "not yet built in this session; planned per DESIGN.md section 6"
